@@ -71,7 +71,7 @@ func credited(segs []seg, eager bool, w int64) int64 {
 			break
 		}
 		take := min(w, int64(s.Wire))
-		if !aligned || s.Full || s.Raw {
+		if !aligned || s.Full {
 			d += take
 		} else if hdr := int64(s.Wire - s.Data); take > hdr {
 			d += take - hdr
@@ -176,6 +176,9 @@ func judge(sc *scenario, res *result) *verdict {
 				v.fail("%s at %v: address %s of request %d dialled before the request arrived", a.Kind, a.At, e.Str, r.spec.ID)
 				continue
 			}
+			if aa.OwnerDone {
+				v.fail("%s at %v: address %s was named in request %d, which had already been completed at %v: it is not taken from a request being served", a.Kind, a.At, e.Str, r.spec.ID, r.doneAt)
+			}
 			if !e.Public {
 				v.fail("%s at %v: request %d: dial-back to non-public address %s (entry %d, class %s)", a.Kind, a.At, r.spec.ID, e.Str, aa.Entry, e.Class)
 			}
@@ -213,7 +216,7 @@ func judge(sc *scenario, res *result) *verdict {
 			} else {
 				v.labels["dial:sameIP"] = true
 			}
-			rv.dialled[string(aa.Bytes)] = true
+			rv.dialled[string(canon(aa.Bytes, a.Peer))] = true
 		}
 	}
 	for i, r := range w.reqs {
@@ -274,7 +277,10 @@ func judge(sc *scenario, res *result) *verdict {
 	}
 
 	// ---- rate limits -------------------------------------------------------------
-	// accepted = delivered to the handler and not answered with E_REQUEST_REJECTED
+	// accepted = delivered to the handler and not answered with E_REQUEST_REJECTED. A
+	// client that tore its stream down on its own may have made the rejection
+	// undeliverable: such a request counts only with positive evidence that it got
+	// past the limiter (the server read from or wrote to the stream).
 	var all []time.Duration
 	perPeer := map[peer.ID][]time.Duration{}
 	var dd []time.Duration
@@ -282,7 +288,7 @@ func judge(sc *scenario, res *result) *verdict {
 		if r.launched < 0 {
 			continue
 		}
-		if rv := views[i]; !rv.rejected {
+		if rv := views[i]; !rv.rejected && (!r.aborted || r.srvEnd.BytesRead.Load() > 0 || len(r.wlog) > 0) {
 			all = append(all, r.launched)
 			perPeer[peerOf(r)] = append(perPeer[peerOf(r)], r.launched)
 		}
